@@ -268,7 +268,7 @@ def run(rep, prop, which):
     for i in range(n_random // 2):
         w = rng.choice([1, 2, 3])
         n = rng.choice([0, 1, 3, 5, 8, 12])
-        cfg = {'via': rng.choice(['parmap', 'parmap', 'prefetch']), 'w': w, 'b': w + rng.choice([0, 0, 1, 2]),
+        cfg = {'via': rng.choice(['parmap', 'parmap', 'prefetch', 'batchmap']), 'w': w, 'b': w + rng.choice([0, 0, 1, 2]),
                'items': [rng.randint(0, 9) for _ in range(n)], 'ending': None,
                'fm': rng.choice([0, 0, 0, 3]), 'fr': rng.randrange(3), 'fcls': 'UserA',
                'stop': rng.choice([None, None, 1, 2, 3, n]), 'with_items': rng.random() < 0.5}
